@@ -229,6 +229,8 @@ Proof.
   - destruct (p_stack ps); intros H; inv H; auto.
   - unfold set_origin. destruct (nth_error (b_items st) i) as [it|]; [|intros H; inv H; auto].
     destruct r; intros H Hi; inv H; exact Hi.
+  - unfold set_header. destruct (lf_at st l) as [f|] eqn:Hf; [|intros H; inv H; auto].
+    destruct is_id, r; intros H Hi; inv H; try exact Hi; (apply set_lf_reg; [exact Hi|]; cbn [l_reg]; eapply lf_at_reg; eassumption).
 Qed.
 
 Theorem run_ops_inv_reg : forall ops ps st, Inv_reg st -> Inv_reg (bstate_of (run_ops ps st ops)).
